@@ -103,7 +103,7 @@ CLAIMED.update({
             "Structural necessary conditions: every IsValidJson / FilterJson implementation accepts null first and without effect; every IsAssignableFrom / CheckEqual pairs the same component of receiver and argument; JSON rebuilders keep the identity fast path and raise the 'different' flag whenever a component changed.",
             "Partial: idempotence, validity of the rebuilt JSON and int/float normalisation are value-level and not decided.",
             "DESIGN.md §4 C17"),
-    "C07": ("operand symmetry over the assignability/equality relations + sibling agreement of the reference arm of every IsValidExpression implementation (guard dominance over go/ssa) (thin claim) + guard dominance with invalidation (map wrap, merge HasRef) + guard dominance in the function or at all calls (map unwrap only without array dimension) + phase-order typestate (no read of BindStms.Table reachable from the topological sort; premise re-established) + loop-index recurrence of the in-place topological sort",
+    "C07": ("operand symmetry over the assignability/equality relations + sibling agreement of the reference arm of every IsValidExpression implementation (guard dominance over go/ssa) (thin claim) + guard dominance with invalidation (map wrap, merge HasRef) + guard dominance in the function or at all calls (map unwrap only without array dimension) + phase-order typestate (no read of BindStms.Table reachable from the topological sort; premise re-established) + loop-index recurrence of the in-place topological sort + must-pass-through (KnownLength consulted between obtaining a merged source set and returning it)",
             "Two mechanisms, not the property's behaviour: assignability recurses on the right operands; a reference is accepted only after resolveType succeeded and the referenced type is assignable TO the receiver type, in every implementation of the interface.",
             "Thin: soundness of the whole relation, projection, map-call dimensions and error locations are not decided.",
             "DESIGN.md §4 C07"),
